@@ -19,7 +19,8 @@ EXPLANATION = (
     "(parameters are discharged at their package call sites); (R2) the sanitiser's shape: it returns only after "
     "commonpath([realpath(base), realpath(joined)]) == realpath(base), else raises ValueError; absolute inputs are re-rooted; "
     "containment is never a string-prefix test; the absolute branch of _get_arrow_path has the same shape; (R3) "
-    "open_parquet_source validates before opening; listings raise on '..'.")
+    "open_parquet_source validates before opening; listings raise on '..'."
+    ' Also: every return of the two sanitisers is sanitised (no prefix-tested fast path).')
 NOT_DECIDED = "behaviour of realpath on symlink arrangements at run time; TOCTOU between check and use"
 
 SANITISERS = {"_resolve_path", "_get_arrow_path", "_real_base_path"}
